@@ -16,7 +16,7 @@ use rten_onnx::onnx::{ModelProto, is_onnx_model};
 use rten_onnx::protobuf::{
     DecodeMessage, FieldTypes, OwnedValues, ProtobufError, ReadValue, ValueReader,
 };
-use vcommon::{Rng, Trace, Value, arg, arg_or, arg_usize, json, limbs, quiet_panics};
+use vcommon::{Rng, Trace, Value, arg, arg_or, arg_usize, json, limbs};
 
 use crate::child::{ItemResult, batch_child_main, run_batch};
 use crate::pb::{Item, LenExpr, Site, encode_mutated, encode_plain, hex, sites, unhex};
@@ -194,7 +194,7 @@ fn item_bytes(item: &Value) -> Vec<u8> {
 
 /// `vh-load proto-batch <file> <from>`: batch child.
 pub fn main_batch_child() {
-    quiet_panics();
+    crate::child::terse_panics();
     batch_child_main(&|item: &Value| {
         let api = item["api"].as_str().unwrap_or("");
         let data = item_bytes(item);
@@ -434,7 +434,139 @@ fn deep_nest(rounds: usize) -> Vec<u8> {
     m
 }
 
-fn gen_inputs(rng: &mut Rng, quick: bool, cands: &[(String, LenExpr)]) -> Vec<Input> {
+/// `v` encoded as a varint of exactly `w` bytes (padded with continuation bytes).
+fn wide_varint(v: u64, w: usize) -> Vec<u8> {
+    let mut b = Vec::new();
+    vcommon::onnx::varint(&mut b, v);
+    assert!(b.len() <= w);
+    if b.len() < w {
+        let last = b.len() - 1;
+        b[last] |= 0x80;
+        while b.len() < w - 1 {
+            b.push(0x80);
+        }
+        b.push(0x00);
+    }
+    b
+}
+
+/// Inputs in which a multi-byte varint (tag, varint value, length, packed
+/// element) starts inside an embedded message / packed field and ends after
+/// its declared end, with further bytes behind it, at every nesting level of
+/// the ONNX schema. The reader's 1-byte limit check lets the varint through,
+/// which leaves the position beyond the limit.
+fn straddle_inputs(quick: bool) -> Vec<Input> {
+    // message-typed field paths from ModelProto
+    let msg_paths: &[(&str, &[u32])] = &[
+        ("graph", &[7]),
+        ("opset", &[8]),
+        ("metadata", &[14]),
+        ("node", &[7, 1]),
+        ("attr", &[7, 1, 5]),
+        ("attr.t", &[7, 1, 5, 5]),
+        ("attr.g", &[7, 1, 5, 6]),
+        ("attr.g.node", &[7, 1, 5, 6, 1]),
+        ("init", &[7, 5]),
+        ("init.ext", &[7, 5, 13]),
+        ("input", &[7, 11]),
+        ("input.type", &[7, 11, 2]),
+        ("tensor_type", &[7, 11, 2, 1]),
+        ("shape", &[7, 11, 2, 1, 2]),
+        ("dim", &[7, 11, 2, 1, 2, 1]),
+        ("seq", &[7, 11, 2, 4]),
+        ("seq.elem", &[7, 11, 2, 4, 1]),
+        ("output", &[7, 12]),
+        ("value_info", &[7, 13]),
+    ];
+    // packed repeated varint fields (the last number is the packed field)
+    let packed_paths: &[(&str, &[u32])] = &[
+        ("init.int32_data", &[7, 5, 5]),
+        ("init.int64_data", &[7, 5, 7]),
+        ("attr.t.int64_data", &[7, 1, 5, 5, 7]),
+    ];
+    let widths: Vec<usize> = if quick { vec![2, 10] } else { (2..=10).collect() };
+    let trailer: &[u8] = &[0xf8, 0x01, 0x01]; // unknown varint field 31 = 1
+    let mut out = Vec::new();
+    let mut n = 0usize;
+    let mut emit = |name: &str, role: &str, path: &[u32], prefix: &[u8], crafted: &[u8], voff: usize, w: usize, out: &mut Vec<Input>| {
+        let ks: Vec<usize> = if quick { if w == 2 { vec![1] } else { vec![1, w - 1] } } else { (1..w).collect() };
+        for k in ks {
+            for cover in [true, false] {
+                if !cover && path.len() < 2 {
+                    continue; // the parent is the unbounded top-level reader
+                }
+                n += 1;
+                if quick && n % 2 == 0 && prefix.is_empty() {
+                    continue;
+                }
+                // innermost region: physical bytes and declared length
+                let mut phys: Vec<u8> = prefix.to_vec();
+                phys.extend_from_slice(crafted);
+                phys.extend_from_slice(trailer);
+                let declared = prefix.len() + voff + k;
+                let mut bytes: Vec<u8> = Vec::new();
+                vcommon::onnx::key(&mut bytes, *path.last().unwrap(), 2);
+                vcommon::onnx::varint(&mut bytes, declared as u64);
+                let head = bytes.len();
+                bytes.extend_from_slice(&phys);
+                // offset of the region content within `bytes`, carried outwards
+                let mut content_at = head;
+                let mut inner_decl_extent = head + declared;
+                for (i, f) in path[..path.len() - 1].iter().enumerate().rev() {
+                    let exact = !cover && i == path.len() - 2;
+                    let decl = if exact { inner_decl_extent } else { bytes.len() };
+                    let mut b = Vec::new();
+                    vcommon::onnx::key(&mut b, *f, 2);
+                    vcommon::onnx::varint(&mut b, decl as u64);
+                    content_at += b.len();
+                    inner_decl_extent = b.len() + decl;
+                    b.extend_from_slice(&bytes);
+                    bytes = b;
+                }
+                let mut doc = vec![0x08, 0x09];
+                content_at += doc.len();
+                doc.extend_from_slice(&bytes);
+                doc.extend_from_slice(trailer);
+                out.push(Input {
+                    gen_name: format!("straddle:{name}:{role}"),
+                    lenclass: format!("w{w}k{k}{}{}", if cover { "" } else { ":parent-ends-too" }, if prefix.is_empty() { "" } else { ":prefix" }),
+                    bytes: doc,
+                    site: Some(Site { kind: "region", depth: path.len() - 1, start: 0, p: content_at, true_len: phys.len(), len: declared as u64 }),
+                    blackbox_only: false,
+                });
+            }
+        }
+    };
+    for &w in &widths {
+        for (name, path) in msg_paths {
+            for prefix in [&[][..], &[0xf8, 0x01, 0x01][..]] {
+                // tag of an unknown varint field, then its value
+                let mut c = wide_varint(31 << 3, w);
+                c.push(0x01);
+                emit(name, "tag", path, prefix, &c, 0, w, &mut out);
+                // tag, then a wide varint value
+                let mut c = vec![0xf8, 0x01];
+                c.extend(wide_varint(1, w));
+                emit(name, "value", path, prefix, &c, 2, w, &mut out);
+                // tag of an unknown length-delimited field, wide length, payload
+                let mut c = vec![0xfa, 0x01];
+                c.extend(wide_varint(1, w));
+                c.push(0x41);
+                emit(name, "len", path, prefix, &c, 2, w, &mut out);
+            }
+        }
+        for (name, path) in packed_paths {
+            for prefix in [&[][..], &[0x01, 0x02][..]] {
+                let c = wide_varint(3, w);
+                emit(name, "elem", path, prefix, &c, 0, w, &mut out);
+            }
+        }
+    }
+    out
+}
+
+fn gen_inputs(rng: &mut Rng, quick: bool, cands: &[(String, LenExpr)], scale: usize) -> Vec<Input> {
+    let sc = |n: usize| (n * scale).div_ceil(100);
     let mut v: Vec<Input> = Vec::new();
     // 0. the pinned inputs
     v.push(Input {
@@ -478,7 +610,7 @@ fn gen_inputs(rng: &mut Rng, quick: bool, cands: &[(String, LenExpr)]) -> Vec<In
                 }
             }
         }
-        let budget = if quick { 80 } else { 1200 };
+        let budget = sc(if quick { 80 } else { 1200 });
         if combos.len() > budget {
             rng.shuffle(&mut combos);
             combos.truncate(budget);
@@ -490,7 +622,7 @@ fn gen_inputs(rng: &mut Rng, quick: bool, cands: &[(String, LenExpr)]) -> Vec<In
             }
         }
         // 2. truncations
-        let step = if quick && plain.len() > 60 { 3 } else { 1 };
+        let step = (if quick && plain.len() > 60 { 3 } else { 1 }) * (100 / scale.clamp(1, 100));
         let mut cut = 1;
         while cut < plain.len() {
             v.push(Input {
@@ -503,7 +635,7 @@ fn gen_inputs(rng: &mut Rng, quick: bool, cands: &[(String, LenExpr)]) -> Vec<In
             cut += step;
         }
         // 3. seeded byte flips
-        let nflip = if quick { 20 } else { 300 };
+        let nflip = sc(if quick { 20 } else { 300 });
         for _ in 0..nflip {
             let mut b = plain.clone();
             for _ in 0..1 + rng.below(3) {
@@ -519,7 +651,7 @@ fn gen_inputs(rng: &mut Rng, quick: bool, cands: &[(String, LenExpr)]) -> Vec<In
         }
     }
     // 4. seeded random byte strings, biased towards protobuf-looking bytes
-    let nrand = if quick { 60 } else { 1500 };
+    let nrand = sc(if quick { 60 } else { 1500 });
     for _ in 0..nrand {
         let n = rng.below(48);
         let b: Vec<u8> = (0..n)
@@ -533,7 +665,9 @@ fn gen_inputs(rng: &mut Rng, quick: bool, cands: &[(String, LenExpr)]) -> Vec<In
             .collect();
         v.push(Input { gen_name: "random".into(), lenclass: "".into(), bytes: b, site: None, blackbox_only: false });
     }
-    // 5. deep nesting (black-box only)
+    // 5. varints that straddle the end of an embedded message / packed field
+    v.extend(straddle_inputs(quick));
+    // 6. deep nesting (black-box only)
     let rounds: &[usize] = if quick { &[50, 3000] } else { &[50, 3000, 20000, 60000] };
     for &r in rounds {
         v.push(Input { gen_name: "deepnest".into(), lenclass: format!("rounds{r}"), bytes: deep_nest(r), site: None, blackbox_only: true });
@@ -552,7 +686,13 @@ fn case_record(id: usize, inp: &Input) -> Value {
     };
     // Large inputs are referenced by generator parameters, not by content.
     let b: Vec<u8> = if inp.bytes.len() <= 4096 { inp.bytes.clone() } else { Vec::new() };
-    json!({"ev": "case", "id": id, "n": inp.bytes.len(), "gen": inp.gen_name, "lenclass": inp.lenclass, "site": site, "b": b})
+    json!({"ev": "case", "id": id, "n": inp.bytes.len(), "gen": inp.gen_name, "lenclass": inp.lenclass, "site": site, "b": b, "build": build_name()})
+}
+
+/// Cargo profile this binary was built with ("release": overflow checks off;
+/// "checked": overflow checks and debug assertions on).
+pub fn build_name() -> &'static str {
+    if cfg!(debug_assertions) { "checked" } else { "release" }
 }
 
 /// One (input, api) job of a batch.
@@ -686,6 +826,7 @@ pub fn main_proto() {
             "bytes" => "bytes",
             "msg" => "msg",
             "packed" => "packed",
+            "region" => "region",
             _ => "none",
         };
         let unl = |v: &Value| -> u64 {
@@ -711,7 +852,7 @@ pub fn main_proto() {
             site,
         }]
     } else {
-        let mut v = gen_inputs(&mut rng, quick, &cands);
+        let mut v = gen_inputs(&mut rng, quick, &cands, arg_usize("--scale", 100));
         if let Some(lim) = arg("--limit").and_then(|s| s.parse::<usize>().ok()) {
             v.truncate(lim);
         }
